@@ -40,6 +40,15 @@
 //	      renders (the same template under a good context, other templates of 2 – 70 000 bytes; again every
 //	      entry point): each successful render must give exactly its model, with nothing left of the failed one.
 //
+//	str:  (route.go) every sequence of at most 2 (thorough: 3) fragments of {# #} {{ }} {% %} a space - as a quoted
+//	      string inside four tag forms, in one tag and one tag per fragment with text between: a render that
+//	      succeeds must emit the text and the strings exactly (an error is accepted).
+//
+//	cmp:  (route.go) a ROUTE dimension: the templates of com, verb, their placements, seq, lit (smaller bounds) and
+//	      str are compiled on one engine and loaded into a second one (CompileTemplate + Serialize +
+//	      LoadFromCompiledData; Template.Compile + RegisterCompiledTemplate; CompiledLoader.SaveCompiled + a
+//	      CompiledLoader as loader); the render there must satisfy the same oracle AND equal the direct render.
+//
 // Every source of the other families (not hist) is rendered a second time behind a 4100-byte comment (second tokenizer).
 package main
 
@@ -76,8 +85,16 @@ func newEngine() *twig.Engine {
 
 func render(src string, ctx map[string]interface{}) string { return renderWith(nil, src, ctx) }
 
-// renderWith registers the extra templates (name, source) in order, then src as "t", and renders "t".
-func renderWith(extras [][2]string, src string, ctx map[string]interface{}) (res string) {
+// renderWith registers the extra templates (name, source) in order, then src as "t", and renders "t" —
+// directly, or (inside a cmp case, see route.go) on a second engine that got all of them in compiled form.
+func renderWith(extras [][2]string, src string, ctx map[string]interface{}) string {
+	if curRoute != nil {
+		return renderRouted(extras, src, ctx)
+	}
+	return renderDirect(extras, src, ctx)
+}
+
+func renderDirect(extras [][2]string, src string, ctx map[string]interface{}) (res string) {
 	defer func() {
 		if r := recover(); r != nil {
 			res = fmt.Sprintf("PANIC %v", r)
@@ -1291,6 +1308,7 @@ func cat(alpha []string, idx []int) string {
 
 func run(t *vlib.T) {
 	strayFamily(t)
+	strFamily(t)
 	litMax, litMaxDeep, comMax, verbMax, escMax, seqMax := 3, 4, 3, 3, 3, 2
 	if t.Thorough() {
 		litMax, litMaxDeep, comMax, verbMax, escMax, seqMax = 4, 5, 4, 4, 4, 3
@@ -1385,6 +1403,11 @@ func run(t *vlib.T) {
 		if t.Stopped() {
 			return
 		}
+		// the same level again with every template compiled on one engine and loaded into a second one
+		cmpLevel(t, l, comAlpha)
+		if t.Stopped() {
+			return
+		}
 		// the histories (a failed render, then successful ones) come once, after the shortest strings
 		if l == 1 {
 			histFamily(t)
@@ -1413,13 +1436,17 @@ func main() {
 			"long: one run of 4096 / 32767 / 32768 / 32769 / 65535 / 65536 / 65537 / 100000 / 300000 bytes (thorough: 25 lengths, the neighbours of 4096, 8192, 16384, 1..4 x 32768, 1 MiB) of a non-periodic record stream (ascii page text; every symbol of the alphabet) as literal text in every slot of every tag kind, as a verbatim body, as a comment body and (an escape-proof stream) as a printed context value alone / next to text / before / between / after / inside the 8 undashed tag kinds, each through 8 output routes (Engine.Render, Template.Render, Engine.RenderTo and Template.RenderTo into bytes.Buffer, strings.Builder, a plain io.Writer without WriteString), byte-exact on every route. " +
 			"seq: every string of <= 2 (thorough 3) symbols as literal text after D X1 [X2] and before X1 [X2] D', D a dash-closed tag ({{ v -}}, {{- v -}}, {% set q = 1 -%}, {% if t -%}, {% if t %}y{% endif -%}), D' a dash-opened tag ({{- v }}, {{- v -}}, {%- set q = 1 %}, {%- if t %}y{% endif %}, {%- endif %}), X1 X2 any of 7 undashed tags ({{ v }}, {##}, {# c #}, {% set q = 1 %}, {% if t %} with the text inside, {% endif %}, {% if t %}y{% endif %}) with no text between the tags, at the end of the template and followed / preceded by {{ v }}, bare and behind the 4100-byte comment: the text is adjacent to no dash and must be emitted exactly. " +
 			"hist: every history <F, S1[, S2]> on one engine, run 3 times in a row: F = a render that fails after writing literal text (1 byte / 48 bytes holding every symbol of the alphabet / 5000 / 70000 bytes before the failing tag: include of a missing template named by the context, failing user function, failing user filter, failing function inside a called macro, inside an included template, inside apply, inside a block, inside a for body, division by zero) through Engine.Render, Template.Render, Engine.RenderTo(bytes.Buffer), Template.RenderTo(plain io.Writer) (thorough: all 8 routes); S = a successful render, through each of those routes, of the same template under a good context / a 2-byte text / a short template / a 5 001-byte / a 70 001-byte run followed by a print tag: every S must equal its model byte for byte; a history is non-trivial when F did fail. " +
-			"non-trivial = the text / body is non-empty and admissible as literal text in at least one slot",
+			"str: every sequence of <= 2 (thorough 3) fragments of {# #} {{ }} {% %} a space - as a single- and a double-quoted string literal in {{ S }}, {% set q = S %}{{ q }}, {% if S %}y{% endif %}, {{ v ~ S }}, as one tag holding the whole string (1 TAG 2) and as one tag per fragment with numbered text between them, bare and behind the 4100-byte comment: a render that succeeds must equal the concatenation model, an error is accepted; " +
+			"cmp (route dimension): the cases of lit with <= 2 symbols (thorough 3), com <= 2 (3), com in the 13 placements <= 1 (2), verb <= 3 (4), verb in the 13 placements <= 2 (3), seq <= 1 (2) and every str case again with every template the case registers compiled on one engine and loaded into a second one through 3 routes (Engine.CompileTemplate + SerializeCompiledTemplate + LoadFromCompiledData; Engine.Load + Template.Compile + RegisterCompiledTemplate; CompiledLoader.SaveCompiled + a CompiledLoader registered as loader; thorough adds Template.SaveCompiled + DeserializeCompiledTemplate + RegisterCompiledTemplate): the render on the second engine is judged by the family's oracle and must equal the direct render of the same source byte for byte whenever that one succeeds; " +
+			"non-trivial = the text / body is non-empty and admissible as literal text in at least one slot (str: the string holds a brace and at least one rendering was accepted)",
 		Assumptions: []string{
 			"a lone { immediately before a tag opener is excluded (maximal munch), as is text that itself contains an opener; what a backslash immediately before an opener and the tag after it render to is left open (undocumented escape) — only the text before the backslash and after the closer is checked (prefix / suffix); a text ending in a backslash before the escaping backslash is excluded",
 			"verbatim content is checked for context independence, absence of context data and evaluated content, and in-order presence of its literal text items; its tag-like parts need not be byte-exact",
 			"bytes outside the 17-symbol alphabet and texts longer than the bound are not explored, except the long runs: those have two fixed contents per length, not every content",
 			"seq: the block constructs in a chain are `if` with a true condition only; a dash is taken to ask for the removal of the whitespace adjacent to its own delimiter and of nothing beyond the next tag",
 			"hist: what a failing render returns or has already written to its writer is not checked; a history whose first render does not fail is not judged; each history is repeated 3 times because which pooled object a render draws is not under the caller's control",
+			"cmp: a compiled template is taken to be the same template as its source (the statement knows no route), so the direct render is the reference for the routed one, also for the tag-like bytes of a verbatim body; when the direct render fails nothing is demanded of the routed one; the fixed one-word templates inc / i reach the second engine as source; compiled data is not tampered with (C05 / C16 look at the format)",
+			"str: whether a tag whose string literal holds a closer of the tag's own kind is accepted is left open (twig rejects it); only successful renders are judged",
 			"long runs: a writer is assumed to accept every Write in full; writers that fail or write short are not explored; printed long values avoid the characters an HTML escaper rewrites",
 		},
 		QuickDeadline:    120,
@@ -1449,6 +1476,12 @@ func main() {
 			}
 			cov["history_failure_kinds"] = strings.Join(fk, ",")
 			cov["seq_chain_tags"] = len(seqXs)
+			var cr []string
+			for _, r := range cmpRoutes(tier == "thorough") {
+				cr = append(cr, r.id+" = "+r.name)
+			}
+			cov["compile_and_load_routes"] = strings.Join(cr, "; ")
+			cov["compile_and_load_bounds"] = fmt.Sprintf("%+v", cmpBoundsFor(tier == "thorough"))
 		},
 	})
 }
